@@ -433,7 +433,7 @@ pub fn phases(cfg: &Cfg) -> Vec<Box<dyn Phase>> {
             sub2: build_opt("str::substring(x, i)"),
         }),
         Box::new(RandomArgs {
-            n: cfg.n(400_000, 20_000_000),
+            n: cfg.n(2_000_000, 20_000_000),
             trees: call_trees(&names),
             names,
         }),
